@@ -210,6 +210,23 @@ def run(tier):
         d = work + "/" + name
         os.makedirs(d, exist_ok=True)
         runs.append(("tar2sqfs", d, ["-c", comps[(i + 1) % len(comps)], "-b", "4096"] + (["-e"] if i % 2 == 0 else []), data))
+    # option combinations and input shapes that add or move output calls: xattr tables + export table + compressor options block + a
+    # device block size larger than the image; an empty tree; tar2sqfs with all of them
+    sx = gen.Scenario(work, "s_optcombo")
+    sx.add_dir("/d")
+    for i in range(5):
+        sx.add_file("/d/f%d" % i, gen.content(rng, "text", 3000 + 500 * i))
+        sx.set_xattr("d/f%d" % i, "user.k%d" % (i % 2), b"value %d" % i)
+    sx.add_nod("/d/c", "c", 1, 2)
+    runs.append(("gensquashfs", sx.dir, ["-c", "gzip", "-X", "level=3", "-b", "4096", "-B", "65536", "-e", "-A", sx.xattrfile(), "-F", sx.packfile()], None))
+    runs.append(("gensquashfs", sx.dir, ["-c", "xz", "-X", "dictsize=8192", "-e", "-A", sx.xattrfile(), "-F", sx.packfile()], None))
+    se = gen.Scenario(work, "s_empty")
+    open(se.dir + "/pack.txt", "w").write("\n")
+    runs.append(("gensquashfs", se.dir, ["-c", "gzip", "-e", "-F", se.dir + "/pack.txt"], None))
+    if tars:
+        d = work + "/optcombo_tar"
+        os.makedirs(d, exist_ok=True)
+        runs.append(("tar2sqfs", d, ["-c", "zstd", "-X", "level=5", "-b", "8192", "-B", "65536", "-e"], tars[0][1]))
     if tier != "quick":
         extra = gen.standard_scenarios(work + "/x", random.Random(SEED + 1), bs=131072)
         for i, s in enumerate(extra):
